@@ -1,6 +1,7 @@
 //! Correspondence harness: runs rdest (built from /repo's working tree with the
 //! `verif` feature) on case files and prints one canonical result line per case.
 mod bc;
+mod c06;
 mod c07;
 mod ext;
 mod hnd;
@@ -24,6 +25,7 @@ fn main() {
         "ext" => ext::run(&lines),
         "mgr" => mgr::run(&lines),
         "hnd" => hnd::run(&lines),
+        "conn" => c06::run(&lines),
         other => {
             eprintln!("unknown property {}", other);
             std::process::exit(2);
